@@ -96,12 +96,12 @@ class C04(Prop):
                 'ThreadsafeForwardingResult, MultiTestResult over TestResult / TextTestResult leaves and all call histories: wasSuccessful() '
                 'is false exactly when an error, failure or unexpected success was reported since the last startTestRun; every '
                 'TextTestResult writes banner, one section per problem, the number of tests started and OK / FAILED(k) in agreement with it; '
-                'with failfast reading true the first bad outcome sets shouldStop, which then stays set until startTestRun, and is never set earlier (only after stop() or a bad outcome with failfast set somewhere); stop() on any node reaches every result below it; wrapping - and every startTestRun on any wrapper - leaves the failfast of every result alone (D14), and each result by itself '
+                'with failfast reading true (also on a directly used ThreadsafeForwardingResult, D15) the first bad outcome sets shouldStop, which then stays set until startTestRun, and is never set earlier (only after stop() or a bad outcome with failfast set somewhere); stop() on any node reaches every result below it; wrapping - and every startTestRun on any wrapper - leaves the failfast of every result alone (D14), and each result by itself '
                 'stops exactly by its own setting (or by a fail-fast decorator above it); exit '
                 'status and summary of testtools.run for a module of test cases with and without -f.  The hand-written model is tied to '
                 'the code by a differential check (random + bounded-exhaustive graphs x histories, TestProgram run in process).',
         'note': 'partial: everything through ExtendedToStreamDecorator + StreamFailFast is validated by the correspondence only (no theorem); the '
-                'text-summary theorem excludes TextTestResult behind ThreadsafeForwardingResult; the known finding tfrOwnFailfastDirect (D15) is excluded; '
+                'text-summary theorem excludes TextTestResult behind ThreadsafeForwardingResult; '
                 'TextTestResult output is parsed, not modelled character by character; trusted: Lean kernel, model, harness',
         'technique': 'Lean 4 proofs by induction on the adapter tree (generic leaf-action theorem, frame lemma for failfast) and on the call '
                      'history; executable spec shared with a differential correspondence check',
